@@ -5,10 +5,11 @@ runs the registered check against it in /repo, and files it under /verif/seeded/
 import json, os, shutil, subprocess, sys
 prop, n, dest, mod = sys.argv[1:5]
 args = sys.argv[5:]
-out = f"/tmp/wt/{prop}.out"
+wt = os.environ.get("SEED_WT", prop)
+out = f"/tmp/wt/{wt}.out"
 patch = f"{out}/patch{n}.diff"
 demo = [f for f in os.listdir(out) if f.startswith(f"demo{n}")][0]
-r = subprocess.run(["/verif/seedconfirm.sh", f"/tmp/wt/{prop}", patch, f"{out}/{demo}", dest, mod] + args, capture_output=True, text=True)
+r = subprocess.run(["/verif/seedconfirm.sh", f"/tmp/wt/{wt}", patch, f"{out}/{demo}", dest, mod] + args, capture_output=True, text=True)
 confirm = r.stdout.strip().splitlines()
 print("\n".join(confirm))
 ok = confirm and confirm[-1] == "CONFIRMED"
